@@ -47,18 +47,62 @@ def run(ctx):
     ctx.rule("R6", "RNG pairing: captured, restored after construction and before run, no seed on resume, global generator only")
     ctx.rule("R7", "absolute step labels: loop over range(step_offset, steps); step_offset never added to an absolute index")
     ctx.rule("R8", "resume does not repeat one-time initialisation")
+    ctx.rule("R10", "kill-and-resume by value: the interpreted run loop, writers, save_checkpoint and run_from_checkpoint of the base engine reproduce the uninterrupted "
+                    "outputs from every kill point (files as written / as of their last flush / right after a checkpoint is published)")
+    by_value = _r10_by_value(ctx, repo, md)
+    ctx.rule("R11", "the extended-Lagrangian history is resumed in phase: the slot read on restart is the one written by the last completed step, for every history length "
+                    "and every phase of the circular buffer (shared with C09-R3)")
+    from .c09 import check_restart_read
+    check_restart_read(ctx, md, "R11")
     _r1(ctx, repo, md, nad)
-    _r2(ctx, md)
+    # R2 / R5 / R7 / R8 are shape-based readings of what R10 decides by value for the base engine and the writers: when R10 holds, their findings and their "shape not
+    # recognised" stops about code of seqm/MolecularDynamics.py are not reported (the engines of NonadiabaticDynamics.py are judged by the shape-based rules only)
+    covered = {"R2", "R5", "R7", "R8"}
+    if by_value:
+        ctx.demote = lambda rid, rel, function, message: ("decided by value in R10" if rid in covered and rel == MD and not function.startswith(("XL_", "KSA_")) else None)
+
+    def guarded(rid, fn, *a):
+        try:
+            fn(*a)
+        except AnalysisError as e:
+            if by_value and rid in covered and "NonadiabaticDynamics" not in str(e):
+                ctx.note(f"{rid}: shape not recognised ({str(e)[:100]}); the base engine's behaviour is decided by value in R10")
+                ctx.ok(rid, MD, "decided by value in R10 (shape-based reading not applicable to this spelling)", nontrivial=False)
+            else:
+                raise
+    guarded("R2", _r2, ctx, md)
     _r4(ctx, repo)
     _r9_ctor_kwargs(ctx, repo)
     _r3(ctx, repo, md, nad)
-    _r5(ctx, md)
+    guarded("R5", _r5, ctx, md)
     _r6(ctx, repo, md, nad)
-    _r7(ctx, md, nad)
-    _r8(ctx, md, nad)
+    guarded("R7", _r7, ctx, md, nad)
+    guarded("R8", _r8, ctx, md, nad)
+    ctx.demote = None
 
 
 # ------------------------------------------------------------------------------------------ R1
+def _r10_by_value(ctx, repo, md) -> bool:
+    """True when the interpreted kill-and-resume scenarios could be run and all hold"""
+    from .. import h5model
+    try:
+        res = h5model.interpreted_resume_runs(repo, all_crash_points=(ctx.tier == "thorough"))
+    except AnalysisError as e:
+        ctx.note(f"R10: the run loop / writers / checkpoint routines could not be interpreted ({str(e)[:140]}); resume is judged by the shape-based rules R2, R5, R7, R8 only")
+        ctx.ok("R10", MD, "not interpretable in this spelling: judged by the shape-based rules", nontrivial=False)
+        return False
+    good = True
+    run = md.func("Molecular_Dynamics_Basic.run_from_checkpoint") if md.has_func("Molecular_Dynamics_Basic.run_from_checkpoint") else None
+    for t, ck, msgs, n in res:
+        pe, xe, d, c, v, f, td, molid, steps, exc = t
+        what = (f"cadences print {pe} / xyz {xe} / data {d} / coordinates {c} / velocities {v} / forces {f} / tdm {td}, checkpoint every {ck}, {steps} steps, molecules {molid}"
+                + (", excited states" if exc else ""))
+        ctx.check(not msgs, "R10", md, run, "Molecular_Dynamics_Basic.run_from_checkpoint", f"scenario {what}",
+                  f"{n} kill points: resumed outputs equal the uninterrupted run ({what})", (msgs[0] if msgs else "") + f" [{what}]")
+        good = good and not msgs
+    return good
+
+
 def _r1(ctx, repo, md, nad):
     # who-may-call torch.save / pickle.dump in the package
     n_save = 0
